@@ -556,22 +556,35 @@ func init() {
 							if bfd := c.declOf[bfn]; bfd != nil && bfd.Body != nil {
 								binfo := c.pkgOf[bfd].TypesInfo
 								readsExprs, readsCells, readsStr, readsAnalysis := false, false, false, false
-								ast.Inspect(bfd.Body, func(n ast.Node) bool {
-									if se, ok := n.(*ast.SelectorExpr); ok {
-										switch se.Sel.Name {
-										case "exprs":
-											readsExprs = true
-										case "Cells":
-											readsCells = true
-										case "Str":
-											readsStr = true
-										case "analysis":
-											readsAnalysis = true
+								// the builder and the helpers of its package it walks the trees with
+								seenB := map[*types.Func]bool{bfn: true}
+								var scanB func(fd *ast.FuncDecl, depth int)
+								scanB = func(fd *ast.FuncDecl, depth int) {
+									ast.Inspect(fd.Body, func(n ast.Node) bool {
+										switch x := n.(type) {
+										case *ast.SelectorExpr:
+											switch x.Sel.Name {
+											case "exprs":
+												readsExprs = true
+											case "Cells":
+												readsCells = true
+											case "Str":
+												readsStr = true
+											case "analysis":
+												readsAnalysis = true
+											}
+										case *ast.CallExpr:
+											if h := originOf(Callee(binfo, x)); h != nil && depth < 2 && !seenB[h] && h.Pkg() == bfn.Pkg() {
+												if hd := c.declOf[h]; hd != nil && hd.Body != nil {
+													seenB[h] = true
+													scanB(hd, depth+1)
+												}
+											}
 										}
-									}
-									return true
-								})
-								_ = binfo
+										return true
+									})
+								}
+								scanB(bfd, 0)
 								if !(readsExprs && readsCells && readsStr) || readsAnalysis {
 									fromInput = false
 								}
@@ -872,7 +885,7 @@ func (c *Ctx) nameGenerator(u FuncUnit, loop *ast.RangeStmt, nameObj types.Objec
 			if identObj(ginfo, x.X) == number && x.Tok != token.INC {
 				okGen = false
 			}
-			if identObj(ginfo, x.X) == cparam {
+			if identObj(ginfo, x.X) == cparam && number != cparam {
 				okGen = false
 			}
 		case *ast.UnaryExpr:
@@ -882,11 +895,31 @@ func (c *Ctx) nameGenerator(u FuncUnit, loop *ast.RangeStmt, nameObj types.Objec
 		}
 		return true
 	})
+	gfc := c.cfgOf(FuncUnit{g, gd, c.pkgOf[gd]}, nil)
+	if number == cparam && nNumDefs == 0 && len(gfc.G.Blocks) > 0 {
+		// the counter parameter itself is the number: it must be incremented in the entry
+		// block before the first rendering (`last++; name := fmt.Sprintf("x%d", last)`)
+		for _, n := range gfc.G.Blocks[0].Nodes {
+			if inc, ok := n.(*ast.IncDecStmt); ok && inc.Tok == token.INC && identObj(ginfo, inc.X) == number {
+				nNumDefs = 1
+				break
+			}
+			mentions := false
+			ast.Inspect(n, func(m ast.Node) bool {
+				if id, ok := m.(*ast.Ident); ok && (ginfo.Uses[id] == number || ginfo.Uses[id] == name || ginfo.Defs[id] == name) {
+					mentions = true
+				}
+				return true
+			})
+			if mentions {
+				break
+			}
+		}
+	}
 	if !okGen || nNumDefs != 1 || nNameDefs == 0 {
 		return nil
 	}
 	// every increment of the number is followed, in its block, by a re-rendering of the name
-	gfc := c.cfgOf(FuncUnit{g, gd, c.pkgOf[gd]}, nil)
 	for _, b := range gfc.G.Blocks {
 		if !gfc.Live(b) {
 			continue
@@ -1067,6 +1100,71 @@ func init() {
 				}
 				return true
 			})
+			if len(accepted) < 2 {
+				// not a switch: decide it on the flow graph.  A type constant K the builtin compares an
+				// argument's Type with is ACCEPTED when assuming `Type == K` makes some code reachable that is
+				// not reachable for a type the builtin never mentions, other than a return of an error
+				accepted = map[string]bool{}
+				bfc := c.cfgOf(FuncUnit{bfn, bfd, bpkg}, nil)
+				typeFld := c.LookupField("lisp.LVal.Type")
+				cands := map[string]bool{}
+				typeCmp := func(e ast.Expr) (string, bool, bool) { // constant, isEq, ok
+					be, ok := ast.Unparen(e).(*ast.BinaryExpr)
+					if !ok || (be.Op != token.EQL && be.Op != token.NEQ) {
+						return "", false, false
+					}
+					for _, pr := range [][2]ast.Expr{{be.X, be.Y}, {be.Y, be.X}} {
+						if FieldOfSelector(binfo, pr[0]) != typeFld || typeFld == nil {
+							continue
+						}
+						if o, ok := identObjOrSel(binfo, pr[1]).(*types.Const); ok {
+							return o.Name(), be.Op == token.EQL, true
+						}
+					}
+					return "", false, false
+				}
+				for _, b := range bfc.G.Blocks {
+					if cond := bfc.CondOf(b); cond != nil && bfc.Live(b) {
+						bfc.inspectCond(cond, func(e ast.Expr) {
+							if k, _, ok := typeCmp(e); ok {
+								cands[k] = true
+							}
+						}, 0)
+					}
+				}
+				under := func(k string) map[*cfg.Block]bool {
+					return bfc.reachableUnder(func(e ast.Expr) int {
+						kk, eq, ok := typeCmp(e)
+						if !ok {
+							return -1
+						}
+						if (kk == k) == eq {
+							return 1
+						}
+						return 0
+					})
+				}
+				rejecting := func(b *cfg.Block) bool {
+					for _, n := range b.Nodes {
+						if rs, ok := n.(*ast.ReturnStmt); ok && len(rs.Results) == 1 {
+							if ce, ok := ast.Unparen(rs.Results[0]).(*ast.CallExpr); ok {
+								if se, ok := ast.Unparen(ce.Fun).(*ast.SelectorExpr); ok && strings.HasPrefix(se.Sel.Name, "Error") {
+									return true
+								}
+							}
+						}
+					}
+					return false
+				}
+				other := under("")
+				for k := range cands {
+					for b := range under(k) {
+						if !other[b] && !rejecting(b) && len(b.Nodes) > 0 {
+							accepted[k] = true
+						}
+					}
+				}
+			}
 			var obs []Obligation
 			if len(accepted) < 2 {
 				obs = append(obs, mkOb(c, "EXPORT.shapes-agree", FuncUnit{bfn, bfd, bpkg}, "accepted argument types", bfd, Undecided, fmt.Sprintf("could not read the accepted argument types of builtinExport (found %d)", len(accepted)), false))
@@ -1662,84 +1760,77 @@ func init() {
 				se, ok := ast.Unparen(e).(*ast.SelectorExpr)
 				return ok && se.Sel.Name == "Kind" && kindT != nil && types.Identical(info.TypeOf(e), kindT)
 			}
-			returnsFalse := func(body []ast.Stmt) bool {
-				if len(body) == 0 {
-					return false
-				}
-				rs, ok := body[len(body)-1].(*ast.ReturnStmt)
-				if !ok || len(rs.Results) != 1 {
-					return false
-				}
-				tv, ok := info.Types[rs.Results[0]]
-				return ok && tv.Value != nil && tv.Value.String() == "false"
-			}
+			// decided on the flow graph: a kind K is refused at global scope when, assuming the symbol's
+			// Kind is K and its scope is the global one, no return other than `return false` stays
+			// reachable — whether the tests are an if-chain, a switch on the kind under a ScopeGlobal
+			// test, or clauses of one tagless switch with a named `atGlobalScope`
 			blocked := map[string]ast.Node{}
-			// (1) unconditional early tests: `if sym.Kind == K || sym.Kind == K2 { return false }` at the top level of the body
-			for _, st := range fd.Body.List {
-				is, ok := st.(*ast.IfStmt)
-				if !ok || is.Init != nil || !returnsFalse(is.Body.List) {
-					continue
+			fc := c.cfgOf(u, nil)
+			var sw ast.Node = fd
+			isScopeGlobal := func(e ast.Expr) bool {
+				o := identObjOrSel(info, e)
+				_, isConst := o.(*types.Const)
+				return isConst && o.Name() == "ScopeGlobal"
+			}
+			isScopePtr := func(e ast.Expr) bool {
+				t := info.TypeOf(e)
+				if t == nil {
+					return false
 				}
-				var ks []string
-				pure := true
-				var walk func(e ast.Expr)
-				walk = func(e ast.Expr) {
-					e = ast.Unparen(e)
-					be, ok := e.(*ast.BinaryExpr)
-					if !ok {
-						pure = false
-						return
+				pt, ok := t.Underlying().(*types.Pointer)
+				if !ok {
+					return false
+				}
+				nt, ok := types.Unalias(pt.Elem()).(*types.Named)
+				return ok && nt.Obj().Name() == "Scope" && nt.Obj().Pkg() != nil && rel(nt.Obj().Pkg().Path()) == "analysis"
+			}
+			sawGlobalTest := false
+			for _, k := range sortedKeys(kinds) {
+				k := k
+				reach := fc.reachableUnder(func(e ast.Expr) int {
+					be, ok := ast.Unparen(e).(*ast.BinaryExpr)
+					if !ok || (be.Op != token.EQL && be.Op != token.NEQ) {
+						return -1
 					}
-					switch be.Op {
-					case token.LOR:
-						walk(be.X)
-						walk(be.Y)
-					case token.EQL:
-						if isKindSel(be.X) && kindOf(be.Y) != "" {
-							ks = append(ks, kindOf(be.Y))
-						} else if isKindSel(be.Y) && kindOf(be.X) != "" {
-							ks = append(ks, kindOf(be.X))
-						} else {
-							pure = false
+					tri := func(v bool) int {
+						if v == (be.Op == token.EQL) {
+							return 1
 						}
-					default:
-						pure = false
+						return 0
+					}
+					for _, pr := range [][2]ast.Expr{{be.X, be.Y}, {be.Y, be.X}} {
+						if isKindSel(pr[0]) && kindOf(pr[1]) != "" {
+							return tri(kindOf(pr[1]) == k)
+						}
+						if isScopeGlobal(pr[1]) {
+							sawGlobalTest = true
+							return tri(true)
+						}
+						if isNilIdent(info, pr[1]) && isScopePtr(pr[0]) {
+							return tri(false) // the scope is not nil
+						}
+					}
+					return -1
+				})
+				refused, nret := true, 0
+				for b := range reach {
+					for _, n := range b.Nodes {
+						rs, ok := n.(*ast.ReturnStmt)
+						if !ok {
+							continue
+						}
+						nret++
+						if len(rs.Results) != 1 || !isBoolConst(info, rs.Results[0], false) {
+							refused = false
+						}
 					}
 				}
-				walk(is.Cond)
-				if pure {
-					for _, k := range ks {
-						blocked[k] = is
-					}
+				if refused && nret > 0 {
+					blocked[k] = fd
 				}
 			}
-			// (2) the kind switch under the ScopeGlobal test
-			var sw *ast.SwitchStmt
-			ast.Inspect(fd.Body, func(n ast.Node) bool {
-				is, ok := n.(*ast.IfStmt)
-				if !ok || !strings.Contains(types.ExprString(is.Cond), "ScopeGlobal") {
-					return true
-				}
-				for _, st := range is.Body.List {
-					if s, ok := st.(*ast.SwitchStmt); ok && s.Tag != nil && isKindSel(s.Tag) {
-						sw = s
-					}
-				}
-				return true
-			})
-			if sw == nil {
-				return []Obligation{mkOb(c, rid, u, "kind switch at global scope", fd, Undecided, "no `switch sym.Kind` under a ScopeGlobal test found in renameable", true)}
-			}
-			for _, st := range sw.Body.List {
-				cc := st.(*ast.CaseClause)
-				if !returnsFalse(cc.Body) {
-					continue
-				}
-				for _, e := range cc.List {
-					if k := kindOf(e); k != "" {
-						blocked[k] = cc
-					}
-				}
+			if !sawGlobalTest {
+				return []Obligation{mkOb(c, rid, u, "kind switch at global scope", fd, Undecided, "no test of the symbol's scope against ScopeGlobal found in renameable", true)}
 			}
 			pureBinding := map[string]string{
 				"SymFunction":  "a top-level function name is only a binding: defun stores the function under it and nothing prints it",
